@@ -802,6 +802,53 @@ package rapid
 //@   loop 1 invariant [C04] drawRely(t) && implies(repeat.rejected, t.attempts > old(t.attempts))
 
 // ---------------------------------------------------------------------------------------------
+// The stuck state machine (C08: "if no action is able to run, Repeat reports a failure instead of looping forever").
+// Scenario "stuck": every action gives up (skips) whenever it is called - the hypothesis is put on the function value
+// runAction calls (callbacks-skip) and carried up through the scenario contracts of its callers (uses-scenario).
+// Then no action ever completes (runAction@stuck, executeAction@stuck: proved), and Repeat must not return normally
+// once it has tried one (Repeat@stuck: proved from executeAction@stuck). "An attempt to run an action does not come
+// back" (executeAction@stuck/ensures) FAILS on the tree as it is - finding F15: an action that has started a Draw
+// before it skips is not retried but handed back as a rejected step, and the first rejection of a run (count 0)
+// makes repeat.reject force a stop, after which Repeat returns as if all had gone well.
+//@ ghost triedG Bool
+//@ func runAction@stuck
+//@   callbacks-skip "the action gives up whenever it is called"
+//@   noframe "calls the user's action"
+//@   assumes-nonnil-calls "the actions map given to Repeat holds no nil functions, and every key the key generator returns is in the map"
+//@   requires [C08] t.failed == "" && unlocked(t)
+//@   ensures [C08] invalid
+//@   ensures [C08] t.failed == "" && implies(skipped, invalid) && unlocked(t) && drawn >= old(drawn)
+//@   ensures [C08] drawRely(t)
+//@   panics any [C08]: unlocked(t) && drawRely(t)
+//@   modifies drawn, t.failed, t.cleanups, elems(t.cleanups), t.ctx, t.cancelCtx, t.draws, t.attempts, lockmode[addr(t.mu)], stream(t.s), discards
+
+//@ func (*stateMachine).executeAction@stuck
+//@   uses-scenario runAction@stuck
+//@   noframe "calls user actions"
+//@   requires [C08] t.failed == "" && unlocked(t)
+//   With actions that never run, an attempt to run one does not come back: it ends in the "can't find a valid
+//   (non-skipped) action" failure (or in whatever the action itself raised).
+//@   ensures [C08] false
+//@   panics any [C08]: drawRely(t)
+//@   modifies drawn, t.failed, t.cleanups, elems(t.cleanups), t.ctx, t.cancelCtx, t.draws, t.attempts, lockmode[addr(t.mu)], stream(t.s), onceDone, onceIn, discards, discardsAtAction
+//@   loop 0 invariant [C08] 0 <= n && n <= validActionTries && t.failed == "" && unlocked(t) && drawn >= old(drawn) && drawRely(t) && implies(n > 0, t.attempts > old(t.attempts))
+
+//@ func (*T).Repeat@stuck
+//@   uses-scenario (*stateMachine).executeAction@stuck
+//@   noframe "calls user actions and the invariant"
+//@   assumes-nonnil-calls "the actions map given to Repeat holds no nil functions"
+//@   requires [C08] t.failed == "" && unlocked(t)
+//   triedG: Repeat has called executeAction in this run
+//@   requires [C08] !triedG
+//@   at sm.executeAction#0 set triedG = true
+//@   ensures [C08] !triedG
+//@   panics any [C08]: true
+//@   modifies drawn, pendingCheck, t.failed, t.cleanups, elems(t.cleanups), t.ctx, t.cancelCtx, t.draws, lockmode[addr(t.mu)], stream(t.s), discardsAtAction, lastWord, onceDone, onceIn, discards, t.attempts, sortedG, triedG
+//@   loop 1 invariant [C08] t.failed == "" && unlocked(t) && repeatInv(repeat) && groupUsed(repeat) && drawRely(t) && implies(repeat.rejected, t.attempts > old(t.attempts))
+//   No step ever comes back to the head of the loop.
+//@   loop 1 invariant [C08] !triedG
+
+// ---------------------------------------------------------------------------------------------
 // engine.go: the Check driver
 //
 // runs:     number of test cases executed by findBug (calls of checkOnce there)
@@ -887,14 +934,25 @@ package rapid
 //@   loop 1 invariant [C17] -1 <= rangeindex && rangeindex < len(data) - 1 && len(buf) == rangeindex + 1 && len(data) >= 1 && !ioFailed
 //@   loop 1 invariant [C06,slow] forall(k, 1, len(buf)+1, buf[k-1] == parseUint(data[k], 0))
 
+// ffLoggedG: checkFailFile has written a log line about the file it is looking at
+//@ ghost ffLoggedG Bool
+
 //@ func checkFailFile
+//   A file that is not used is ignored with a log line, whatever the reason (C17): unreadable or malformed, another
+//   version, a test case that is invalid now - or one that passes now.
+//@   at loadFailFile#0 set ffLoggedG = false
+//@   at tb.Logf#0 set ffLoggedG = true
+//@   at tb.Logf#1 set ffLoggedG = true
+//@   at tb.Logf#2 set ffLoggedG = true
+//@   at tb.Logf#3 set ffLoggedG = true
+//@   ensures [C17] implies(result1 == nil && result2 == nil, ffLoggedG)
 //@   at checkOnce#1 assert [C01,C17] clean(arg0) && hasType(arg0.s, bufBitStream) && len(deref(arg0.s, bufBitStream).buf) == len(buf) && arr(deref(arg0.s, bufBitStream).buf) == arr(buf)
 //@   noframe "replays the property"
 //@   requires [C17] prop != nil
 //@   ensures [C17] tbFailed == old(tbFailed) && tbErrors == old(tbErrors)
 //@   ensures [C17] implies(result1 != nil || result2 != nil, result1 != nil && !isInvalidData(result1.data))
 //@   ensures [C17] implies(now(err) != nil || now(version) != rapidVersion, result1 == nil && result2 == nil && len(result0) == 0)
-//@   modifies heap, drawn, lockmode, cancelled, cleanupSkipped, ioFailed, propFalsified, fsClosed, discards, cleanupFalsified, cbFalsified
+//@   modifies heap, drawn, lockmode, cancelled, cleanupSkipped, ioFailed, propFalsified, fsClosed, discards, cleanupFalsified, cbFalsified, ffLoggedG
 
 // saveFailFile (C16): every crash point leaves either no file under the final name or a complete one.
 // The only call that creates or changes a file under a name the discovery pattern can match is os.Rename;
@@ -975,7 +1033,7 @@ package rapid
 //@   ensures [C07] implies(searched && (result6 != nil || result7 != nil), result3 == lastInit)
 //@   ensures [C09] implies(result6 == nil && result7 == nil, searched && result3 == 0 && result4 == "")
 //@   ensures [C02,C17] tbFailed == old(tbFailed) && tbErrors == old(tbErrors)
-//@   modifies heap, drawn, runs, lastInit, searched, sawFailure, lockmode, cancelled, ffFalsified, cleanupSkipped, propFalsified, runesWritten, ioFailed, fsClosed, cmpAt, lessAt, untilG, ffTried, discards, globbed, cleanupFalsified, cbFalsified, caseExt, caseRuns, caseWall, totalG
+//@   modifies heap, drawn, runs, lastInit, searched, sawFailure, lockmode, cancelled, ffFalsified, cleanupSkipped, propFalsified, runesWritten, ioFailed, fsClosed, cmpAt, lessAt, untilG, ffTried, discards, globbed, cleanupFalsified, cbFalsified, caseExt, caseRuns, caseWall, totalG, ffLoggedG
 //@   at findBug#0 assert [C07,C17,C18] seed == old(seed) && checks == old(checks) && !tbFailed
 //@   at failFilePattern#0 assert [C06] arg0 == tbNameOf(tb)
 //   The test's own fail-file directory is searched whenever the caller asks for it, whether or not an explicit
@@ -1019,7 +1077,7 @@ package rapid
 //@   ensures [C09] tbErrors == old(tbErrors)
 //@   panics goexit [C02,C06,C09,C16]: tbFailed && tbErrors == old(tbErrors) + 1 && fsRenames <= old(fsRenames) + 1
 //@   ensures [C06,C16] fsRenames <= old(fsRenames) + 1
-//@   modifies heap, drawn, runs, lastInit, searched, sawFailure, lockmode, cancelled, tbFailed, tbErrors, fsWritten, fsClosed, fsRenamed, fsTmpName, fsTmpDir, fsRenamedAtCreate, fsRenames, runesWritten, capturedOut, cleanupSkipped, ffFalsified, propFalsified, ioFailed, cmpAt, lessAt, untilG, joinedG, fsOtherCreate, ffTried, discards, cleanupFalsified, globbed, cbFalsified, fsWriteErr, caseExt, caseRuns, caseWall, totalG
+//@   modifies heap, drawn, runs, lastInit, searched, sawFailure, lockmode, cancelled, tbFailed, tbErrors, fsWritten, fsClosed, fsRenamed, fsTmpName, fsTmpDir, fsRenamedAtCreate, fsRenames, runesWritten, capturedOut, cleanupSkipped, ffFalsified, propFalsified, ioFailed, cmpAt, lessAt, untilG, joinedG, fsOtherCreate, ffTried, discards, cleanupFalsified, globbed, cbFalsified, fsWriteErr, caseExt, caseRuns, caseWall, totalG, ffLoggedG
 //@   at captureTestOutput#0 set capturedOut = arr(result)
 //@   at saveFailFile#0 assert [C06,C16] fsRenames == old(fsRenames) && arr(arg2) == capturedOut
 //   The fail file is saved under the directory and name derived from the very test name that doCheck globs for.
